@@ -26,6 +26,7 @@ RULE = (
     'np.einsum and the adjoint identity. non-trivial = letters not in canonical ij order, or an ellipsis, or a batch '
     'letter. distinct = distinct strings / recipes.'
     ' Also (layer 2): the leaves of one pytree may have different dtypes (promotion judged per leaf).'
+    ' Also (layer 2): pytrees of 9 and 12 leaves.'
 )
 ASSUMPTIONS = [
     'numpy.einsum is the specification of einsum; alphabet {h,i,j,k}; explicit mode with exactly two operands',
